@@ -10,6 +10,7 @@ INVARIANT TransformsPreserveSignedData
 INVARIANT AlterationsChangeSignedData
 INVARIANT KeyTagRange
 INVARIANT KeyTagLaws
+INVARIANT KeyLayoutLaws
 INVARIANT VectorLaws
 INVARIANT Emit
 INVARIANT EmitKeys
